@@ -235,7 +235,7 @@ func mutateB64Segment(rng *rand.Rand, b []byte) []byte {
 
 type hostileSeeds struct {
 	jws, cose, certFiles, keyFiles, ocspReplies, crlReplies [][]byte
-	chainDERs                                                [][]byte
+	chainDERs                                               [][]byte
 }
 
 var (
@@ -848,8 +848,8 @@ func genC09(r *Runner) {
 	}
 	type agg struct {
 		values, errs, cases int
-		kinds              map[string]int
-		distinct           map[string]bool
+		kinds               map[string]int
+		distinct            map[string]bool
 	}
 	aggs := map[string]*agg{}
 	for _, t := range hostileTargets {
